@@ -8,6 +8,7 @@ import Driver.FormulaRename
 import Driver.PredRename
 import Driver.Codebuilder
 import Driver.Lookup
+import Driver.LookupRel
 import Driver.Lenient
 import Driver.Trigger
 import Driver.Upsert
@@ -53,6 +54,7 @@ def handleStateless (m : String) (j : Json) : Except String Json :=
   | "trigger" => handleTrigger j
   | "lenient" => LenientD.handleLenient j
   | "lookup" => Grist.Driver.LookupD.handleLookup j
+  | "lookuprel" => Grist.Driver.LookupRelD.handleLookupRel j
   | "codebuilder" => handleCodebuilder j
   | "predrename" => Grist.Driver.PredRename.handlePredRename j
   | "formularename" => handleFormulaRename j
